@@ -53,7 +53,8 @@ func randCfg(rng *rand.Rand, k int) Cfg {
 		// would flush part of those bytes to the file, which the model does not represent
 		c.FileSize = 0
 	}
-	c.Prealloc = rng.Intn(6) == 0
+	// preallocation writes FileSize zero bytes per log: only with the small chunk sizes, except rarely
+	c.Prealloc = (c.FileSize != 0 && rng.Intn(3) == 0) || rng.Intn(40) == 0
 	if !c.Embedded && rng.Intn(6) == 0 {
 		c.IOConc = 2 + rng.Intn(2)
 	}
